@@ -30,6 +30,8 @@ func (silent) Println(args ...interface{})               {}
 
 func TestMain(m *testing.M) {
 	hessian.SetLogger(silent{})
+	// unbounded recursion inside the library (C04, C16) should die quickly and cheaply
+	debug.SetMaxStack(256 << 20)
 	if os.Getenv("VERIF_WORKER") != "" {
 		workerMain()
 		return
